@@ -1507,7 +1507,8 @@ Proof.
     pose proof (Jg_register xr xs h g c cn b KClient u eq_refl Hno HJ) as J1.
     destruct (register h c cn b KClient u) as [h1 o1]. exact J1.
   - destruct (v2_check (h_nb h) b t); [now apply Jg_register|apply Jexp; [apply same_refl|reflexivity]].
-  - destruct (throttled h (c_addr cn) ACT_INTERNAL); [apply Jexp; [apply same_refl|reflexivity]|].
+  - destruct (N.eqb tok 4); [apply Jexp; [apply same_refl|reflexivity]|].
+    destruct (throttled h (c_addr cn) ACT_INTERNAL); [apply Jexp; [apply same_refl|reflexivity]|].
     destruct (negb (N.eqb tok 0)); [apply Jexp; [apply same_record_failure|reflexivity]|].
     destruct (h_nb h <=? b); [apply Jexp; [apply same_record_failure|reflexivity]|].
     now apply Jg_register.
